@@ -93,9 +93,29 @@ def json_keys(d):
     return ", ".join("%s x%d" % kv for kv in sorted(d.items()))
 
 
+def extra_transports(chk):
+    """`UnbindCloses` on the real transports (the connection lane runs on the in-process one): TCP dialled and pre-connected,
+    TLS, Unix socket by path and pre-connected. The peer does not close on reading the UnbindRequest; it must read end-of-file,
+    and a later operation on the handle must fail."""
+    import os
+    import common as C
+    import setuplane as S
+    rp = os.path.join(chk.dir, "unbind-closes.json")
+    C.harness("setup-run", ["unbind-closes", rp], timeout=300, env={"VERIF_SETUP_DIR": S.workdir(chk)})
+    rep = C.load(rp)
+    chk.report(rep, "Unbind on the real transports (peer waits for end-of-file)")
+    cnt = rep.get("counters", {})
+    if cnt.get("not-exercised", 0) or cnt.get("closed-and-failing-fast", 0) + rep["mismatch_total"] < 5:
+        chk.tool_error("unbind-closes: not every transport variant could be exercised: %s" % "; ".join(rep.get("notes", [])[:3]))
+    chk.rule.append("transports: bind, unbind, wait - on TCP (dialled, pre-connected), TLS, Unix socket (by path, pre-connected) the "
+                    "peer, which does not close on the UnbindRequest, reads end-of-file and a later operation fails")
+    S.cleanup(chk)
+
+
 def extra_all(chk):
     extra(chk)
     extra_setup(chk)
+    extra_transports(chk)
 
 
 def run(tier):
